@@ -2407,9 +2407,14 @@ func (a *Agent) TaskDispatch(RequestID uint32, CommandID uint32, Parser *parser.
 				KillDate = Parser.ParseInt64()
 				WorkingHours = int32(Parser.ParseInt32())
 
+				// a session keeps its id: a check-in that names another agent is not this agent's
+				if fmt.Sprintf("%08x", DemonID) != a.NameID {
+					logger.Debug(fmt.Sprintf("Agent: %x, Command: COMMAND_CHECKIN, check-in carries another agent id: %x", AgentID, DemonID))
+					break
+				}
+
 				a.Active = true
 
-				a.NameID = fmt.Sprintf("%08x", DemonID)
 				a.Info.FirstCallIn = a.Info.FirstCallIn
 				a.Info.LastCallIn = a.Info.LastCallIn
 				a.Info.Hostname = Hostname
